@@ -203,7 +203,9 @@ func poolStop(workersN, requested int) vrt.Scenario {
 		sw = x
 		var gate vatomic.Bool
 		m := metrics.NewInstance(x.reg, true, nil)
+		begun := 0
 		sc := &scenarios.Scenario{Name: "s", RunFn: func(*f1testing.T) {
+			begun++
 			vrt.WaitUntil("gate", func() bool { return gate.Peek() })
 		}}
 		as := workers.NewActiveScenario(sc, m, x.stats, hlib.DiscardLogger(), hlib.DiscardLogrus())
@@ -212,10 +214,12 @@ func poolStop(workersN, requested int) vrt.Scenario {
 		ctx, cancel := vctx.WithCancel(vctx.Background())
 		defer cancel()
 		wctx := pool.Start(ctx)
+		triggerReturned := hlib.StopWhenDone(wctx, pool)
 		pool.Trigger(wctx, requested) // the workers take one each and block in it; the rest stays pending
-		vrt.WaitUntil("workers-busy", func() bool { return pool.VerifPending() <= int64(requested-workersN) })
+		vrt.WaitUntil("workers-busy", func() bool { return begun >= workersN })
 		cancel() // the run ends: what is pending is discarded and reported dropped
 		gate.Store(true)
+		triggerReturned()
 		vrt.Recv(mgr.WaitForCompletion())
 		tot := x.stats.Total()
 		x.atCompletion = tot.DroppedIterationCount
